@@ -231,10 +231,12 @@ func (t *Task) GetControlMode() controlmode.ControlMode {
 		// If it's a BASIC task but its parent role uses it as a HOOK,
 		// we modify the actual control mode of the task.
 		// The class itself can never be HOOK, only BASIC
-		if class.Control.Mode == controlmode.BASIC && t.GetParent() != nil {
-			traits := t.GetParent().GetTaskTraits()
-			if len(traits.Trigger) > 0 {
-				return controlmode.HOOK
+		if class.Control.Mode == controlmode.BASIC {
+			if parent := t.GetParent(); parent != nil { // read once: a concurrent release sets it to nil
+				traits := parent.GetTaskTraits()
+				if len(traits.Trigger) > 0 {
+					return controlmode.HOOK
+				}
 			}
 		}
 		return class.Control.Mode
